@@ -58,12 +58,12 @@ INVARIANT UpToDate
 CENTERS = [0.5, -1.0 / 3.0, 0.1 + 0.2]      # 0.5 - 0.5 gives a coordinate that is exactly 0.0
 
 
-def make_spec(workdir, names, points, tag):
+def make_spec(workdir, names, points, tag, scaled=None):
     """points: list of dict name -> float (incl. the gate)"""
     spec = dict(dir=workdir, model=f'm{tag}', names=names, gate='zz_gate', nan_param=('m_nan' if len(names) < 50 else None),
                 start=[0.25] * len(names), centers=[CENTERS[i] if len(names) == 3 else (0.1 + 0.2 if i % 2 == 0 else -1.0 / 3.0) for i in range(len(names))],
                 points=[{k: float(v).hex() for k, v in p.items()} for p in points], out=os.path.join(workdir, f'out-{tag}.json'),
-                restart_full=len(names) < 50)
+                restart_full=len(names) < 50, scaled=list(scaled) if scaled else [False] * len(points))
     path = os.path.join(workdir, f'spec-{tag}.json')
     json.dump(spec, open(path, 'w'))
     return spec, path
@@ -201,7 +201,7 @@ def run_dry(case):
     base = tempfile.mkdtemp(prefix='vb-c15-', dir=os.environ.get('VERIF_SCRATCH', '/var/tmp'))
     try:
         shutil.copy('/repo/biogeme.toml', os.path.join(base, 'biogeme.toml'))
-        spec, spec_path = make_spec(base, names, points, tag)
+        spec, spec_path = make_spec(base, names, points, tag, case.get('scaled'))
         iter_name = f'__{spec["model"]}.iter'
         log = os.path.join(base, 'dry.log')
         rc, err = strace_run('run', spec_path, log)
@@ -242,7 +242,7 @@ def run_kill(item):
     base = tempfile.mkdtemp(prefix='vb-c15k-', dir=os.environ.get('VERIF_SCRATCH', '/var/tmp'))
     try:
         shutil.copy('/repo/biogeme.toml', os.path.join(base, 'biogeme.toml'))
-        spec, spec_path = make_spec(base, names, points, tag)
+        spec, spec_path = make_spec(base, names, points, tag, case.get('scaled'))
         iter_name = f'__{spec["model"]}.iter'
         sysname = calls[j]['sys']
         when = sum(1 for c in calls[: j + 1] if c['sys'] == sysname and c['pid'] == calls[j]['pid'])
@@ -310,10 +310,14 @@ def sequences(quick, seed):
             [(2, True), (3, 'zero'), (1, True)],              # the best point has a coordinate that is exactly 0.0
             [(2, True), (3, 'nan-gradient'), (1, True)],      # finite value, NaN in the gradient of a parameter that is not the first
             [(2, True), (2, True), (1, True), (3, True)],     # tie, worse, better
-            [(2, False), (1, True), (3, False), (2, True)]]   # non-finite first and in the middle
+            [(2, False), (1, True), (3, False), (2, True)],   # non-finite first and in the middle
+            # some evaluations ask for the value per observation (scaled=True): the best point is the best by the
+            # log likelihood of the sample, whatever the scaling asked for
+            [(2, True, 'scaled'), (2, True), (3, True, 'scaled'), (3, True)],
+            [(1, True), (2, True, 'scaled'), (2, True), (1, True, 'scaled')]]
     allseq = [list(s) for n in (1, 2, 3) for s in itertools.product([(1, True), (2, True), (3, True), (2, False)], repeat=n)]
     rng.shuffle(allseq)
-    extra = allseq[: (2 if quick else 40)]
+    extra = [[(e[0], e[1], 'scaled') if rng.random() < 0.3 else e for e in s] for s in allseq[: (2 if quick else 40)]]
     return base + extra
 
 
@@ -324,7 +328,7 @@ def realise(seq):
     dist = {3: 0.5, 2: 1.5, 1: 2.75}
     used = {}
     pts = []
-    for lvl, fin in seq:
+    for lvl, fin in [(e[0], e[1]) for e in seq]:
         n = used.get(lvl, 0)
         used[lvl] = n + 1
         sign = 1.0 if n % 2 == 0 else -1.0
@@ -358,7 +362,8 @@ def body(chk: check.Check):
     cases = []
     for n, seq in enumerate(sequences(quick, chk.seed)):
         names, pts = realise(seq)
-        cases.append(dict(names=names, points=pts, tag=f's{n}', max_crash=None if not quick or n < 3 else 6))
+        cases.append(dict(names=names, points=pts, tag=f's{n}', max_crash=None if not quick or n < 3 else 6,
+                          scaled=[len(e) > 2 for e in seq]))
     # many parameters: the file is written by more than one system call (a partial file exists at a syscall boundary)
     big_names = [f'p{i:03d}' for i in range(340)]
     big_pts = []
